@@ -6,7 +6,7 @@
    (dec f m (enc f m b) = DOk b).  The format table of the tree under test enters through the
    generated TyphonGen.C12_formats.known_compressions. *)
 From Coq Require Import ZArith List Bool String Ascii.
-From Typhon Require Import Model.C12_compress Proofs.C12_compress.
+From Typhon Require Import Model.C12_compress Proofs.C12_compress Model.C12_nested Proofs.C12_nested.
 From TyphonGen Require Import C12_formats.
 Import ListNotations.
 Open Scope Z_scope.
@@ -165,6 +165,150 @@ Example nonvacuous :
   known (fmt_of_name (s2l "a.tar.gz")) = true.
 Proof. vm_compute. repeat split. Qed.
 
+(* ------------------------------------------------------------------ several blocks open at the same time
+   (Model/C12_nested.v).  Every temporary entry is a path in the SAME file system as the user's files;
+   its name comes from an oracle; a block is split into Enter / Use / Leave, and a history is any list
+   of such events over any list of blocks -- every interleaving of entries, reads / writes and exits of
+   any number of compress and decompress blocks, with or without an exception in the bodies, well
+   nested or not.  `ideal_hist` is the same history when every block keeps its copy where nobody else
+   can reach it: there a decompress block reads the bytes decoded from ITS archive at entry however
+   often and whenever it looks, leaving raises nothing, and the file system changes only at the targets
+   of compress blocks.
+
+   Given that the oracles return names that do not exist (fresh_file_ok / fresh_dir_ok: what
+   NamedTemporaryFile(delete=False) and TemporaryDirectory provide) and that the caller's own names are
+   not such names, the shared file system is indistinguishable from the ideal: the same observation at
+   every event (entry outcome, bytes read, exit outcome), the same blocks open, and the same content
+   at every path that is not the temporary path of a block still open. *)
+Theorem nested_blocks_independent : forall known enc encp dec freshf freshd istmp,
+  fresh_file_ok istmp freshf -> fresh_dir_ok istmp freshd ->
+  forall bs, user_names_ok istmp bs ->
+  forall fs0 evs,
+  let r := run_hist known enc encp dec freshf freshd bs evs (mkN fs0 []) in
+  let s := ideal_hist known enc encp dec bs evs (mkI fs0 []) in
+  snd r = snd s /\
+  map fst (n_open (fst r)) = map fst (i_open (fst s)) /\
+  (forall p, ~ In p (tpaths (n_open (fst r))) -> flook p (n_fs (fst r)) = flook p (i_fs (fst s))).
+Proof. exact nested_independent. Qed.
+
+(* The ideal history touches nothing but the targets of its compress blocks (for every codec, table and
+   history; no hypothesis) ... *)
+Theorem ideal_touches_only_targets : forall known enc encp dec bs fs0 evs p,
+  ~ In p (comp_targets bs) ->
+  flook p (i_fs (fst (ideal_hist known enc encp dec bs evs (mkI fs0 [])))) = flook p fs0.
+Proof. exact ideal_only_targets. Qed.
+
+(* ... hence: once every block has been left, no temporary file remains and every path that is not the
+   target of a compress block -- every archive, every bystander in the temporary directory whatever its
+   name (the stem of an archive, 'temp', ...), every path that did not exist -- is byte for byte what
+   it was before the history.  (The several-block form of decompress_touches_nothing_else /
+   compress_touches_nothing_else / no_debris_*.) *)
+Theorem nested_blocks_no_debris : forall known enc encp dec freshf freshd istmp,
+  fresh_file_ok istmp freshf -> fresh_dir_ok istmp freshd ->
+  forall bs, user_names_ok istmp bs ->
+  forall fs0 evs,
+  let r := fst (run_hist known enc encp dec freshf freshd bs evs (mkN fs0 [])) in
+  n_open r = [] -> forall p, ~ In p (comp_targets bs) -> flook p (n_fs r) = flook p fs0.
+Proof. exact nested_no_debris. Qed.
+
+(* Two decompress blocks spelled out: any two archives (the same stem in different directories, the
+   same stem with different suffixes, even the same archive twice), any temporary directories, nested
+   (outer opened and read, inner opened and read, outer read again, inner left, outer read again, outer
+   left) or overlapping (the first is left while the second is open), exceptions in the bodies or not:
+   each block reads the bytes of its archive every time, leaving raises nothing, afterwards nothing is
+   open and EVERY path has the content it had. *)
+Theorem two_decompress_blocks_independent : forall known enc encp dec freshf freshd istmp,
+  fresh_file_ok istmp freshf -> fresh_dir_ok istmp freshd ->
+  forall fs0 A B tdA tdB xA xB bA bB (nested e0 e1 : bool),
+  istmp A = false -> istmp B = false ->
+  known (fmt_of_name A) = true -> known (fmt_of_name B) = true ->
+  flook A fs0 = Some xA -> dec (fmt_of_name A) (member_d A) xA = DOk bA ->
+  flook B fs0 = Some xB -> dec (fmt_of_name B) (member_d B) xB = DOk bB ->
+  let bs := [BDec A tdA; BDec B tdB] in
+  let evs := if nested
+             then [Enter 0; Use 0; Enter 1; Use 1; Use 0; Leave 1 e1; Use 0; Leave 0 e0]
+             else [Enter 0; Use 0; Enter 1; Use 1; Use 0; Leave 0 e0; Use 1; Leave 1 e1] in
+  let r := run_hist known enc encp dec freshf freshd bs evs (mkN fs0 []) in
+  snd r = [OEnter false YTemp; ORead (Some bA); OEnter false YTemp; ORead (Some bB); ORead (Some bA);
+           OLeave false; ORead (Some (if nested then bA else bB)); OLeave false]
+  /\ n_open (fst r) = [] /\ (forall p, flook p (n_fs (fst r)) = flook p fs0).
+Proof. exact two_decompress_blocks. Qed.
+
+(* One block: its three phases compose to the one-block model above (run_decompress / run_compress of
+   Model/C12_compress.v) with the oracle's name in the place of target= / of the temporary directory:
+   the theorems of the first part of this file speak about the same blocks. *)
+Theorem one_decompress_block_is_its_phases : forall known enc encp dec freshf freshd fs tds tfs nx name td,
+  known (fmt_of_name name) = true ->
+  let p := freshf fs [] td name in
+  let r := run_decompress known dec (mkSt fs tds tfs nx) name (Some p) DNone in
+  let h := run_hist known enc encp dec freshf freshd [BDec name td] [Enter 0; Use 0; Leave 0 false] (mkN fs []) in
+  n_fs (fst h) = files (d_st r) /\ n_open (fst h) = [] /\
+  snd h = match d_out r with
+          | Done => [OEnter false YTemp; ORead (d_read r); OLeave false]
+          | Raised => [OEnter true YNone; OSkip; OSkip]
+          end.
+Proof. exact single_block_phases. Qed.
+
+Theorem one_compress_block_is_its_phases : forall known enc encp dec freshf freshd st name fa b td,
+  known (eff_fmt name fa) = true ->
+  let d := freshd (files st) [] td in
+  flook (tpath d) (files st) = None -> name <> tpath d ->
+  let rc := run_compress known enc encp st name fa b CNone in
+  let h := run_hist known enc encp dec freshf freshd [BComp name fa b td] [Enter 0; Use 0; Leave 0 false]
+                    (mkN (files st) []) in
+  (forall p, flook p (n_fs (fst h)) = flook p (files (c_st rc))) /\ n_open (fst h) = [] /\
+  snd h = [OEnter false YTemp; OWrite; OLeave (raisedb (c_out rc))].
+Proof. exact single_compress_phases. Qed.
+
+(* non-vacuity: the oracle hypotheses are satisfiable (the oracle used to run the model: a name in the
+   temporary directory that is longer than every existing path) *)
+Theorem fresh_oracle_satisfiable : fresh_file_ok istmp0 freshf0 /\ fresh_dir_ok istmp0 freshd0.
+Proof. exact fresh0_ok. Qed.
+
+(* The freshness hypothesis is needed.  With a name that is a function of the archive's stem
+   (<tmpdir>/<archive name without the compression suffix>) the statement FAILS: two archives
+   2020/01/orbit.dat.gz and 2020/02/orbit.dat.gz, one temporary directory holding a bystander
+   'orbit.dat', nested blocks.  The caller's names meet user_names_ok; the ideal history reads [1;2]
+   in the outer block every time; the shared file system lets the outer block read the INNER
+   archive's bytes, then find no file at all, then fail to leave; the bystander is gone. *)
+Theorem nested_blocks_independent_refuted_for_stem_names :
+  let r := run_hist (knownb advertised) toy_enc toy_encp toy_dec stem_name freshd0 wbs wevs (mkN wfs []) in
+  let s := ideal_hist (knownb advertised) toy_enc toy_encp toy_dec wbs wevs (mkI wfs []) in
+  user_names_ok istmp0 wbs /\
+  snd s = [OEnter false YTemp; ORead (Some [1; 2]); OEnter false YTemp; ORead (Some [3]); ORead (Some [1; 2]);
+           OLeave false; ORead (Some [1; 2]); OLeave false] /\
+  snd r = [OEnter false YTemp; ORead (Some [1; 2]); OEnter false YTemp; ORead (Some [3]); ORead (Some [3]);
+           OLeave false; ORead None; OLeave true] /\
+  n_open (fst r) = [] /\
+  flook (s2l "T/orbit.dat") wfs = Some [7] /\ flook (s2l "T/orbit.dat") (n_fs (fst r)) = None.
+Proof. exact stem_name_refuted. Qed.
+
+(* non-vacuity: a concrete history with the concrete fresh oracle.  The same two archives and the
+   bystander; a decompress block on the first, inside it a compress block on a new target with the same
+   base name and a decompress block on the second; the compress block is left first (not well nested),
+   the inner decompress body ends with an exception.  Three temporary entries are alive at once; each
+   decompress block reads its own bytes; the new target decodes to the bytes written; the archives and
+   the bystander are unchanged; nothing else exists afterwards. *)
+Example nested_nonvacuous :
+  let known := knownb advertised in
+  let C := s2l "W/out/orbit.dat.gz" in
+  let bs := [BDec wA (s2l "T"); BComp C None [5; 6] (s2l "T"); BDec wB (s2l "T")] in
+  let evs := [Enter 0; Enter 1; Enter 2; Use 0; Use 1; Use 2; Leave 1 false; Use 0; Use 2;
+              Leave 2 true; Use 0; Leave 0 false]%nat in
+  let r := run_codes known freshf0 freshd0 bs evs (mkN wfs []) in
+  user_names_ok istmp0 bs /\
+  map (fun c => nth 0 c 0) (snd r) = [1; 2; 3; 3; 3; 3; 2; 2; 2; 1; 1; 0] /\
+  snd (run_hist known toy_enc toy_encp toy_dec freshf0 freshd0 bs evs (mkN wfs [])) =
+    [OEnter false YTemp; OEnter false YTemp; OEnter false YTemp; ORead (Some [1; 2]); OWrite; ORead (Some [3]);
+     OLeave false; ORead (Some [1; 2]); ORead (Some [3]); OLeave false; ORead (Some [1; 2]); OLeave false] /\
+  n_open (fst r) = [] /\
+  decode_target toy_dec (s2l "gz") C (n_fs (fst r)) = Some [5; 6] /\
+  map (watch wfs (n_fs (fst r))) [wA; wB; s2l "T/orbit.dat"] = [[1; 1]; [1; 1]; [1; 1]] /\
+  List.length (n_fs (fst r)) = 4%nat.
+Proof.
+  split; [intros b [<-|[<-|[<-|[]]]]; reflexivity|]. vm_compute. repeat split.
+Qed.
+
 Print Assumptions advertised_formats.
 Print Assumptions no_debris_compress.
 Print Assumptions no_debris_decompress.
@@ -180,3 +324,11 @@ Print Assumptions roundtrip_advertised.
 Print Assumptions passthrough_compress.
 Print Assumptions passthrough_decompress.
 Print Assumptions codec_hypothesis_satisfiable.
+Print Assumptions nested_blocks_independent.
+Print Assumptions ideal_touches_only_targets.
+Print Assumptions nested_blocks_no_debris.
+Print Assumptions two_decompress_blocks_independent.
+Print Assumptions one_decompress_block_is_its_phases.
+Print Assumptions one_compress_block_is_its_phases.
+Print Assumptions fresh_oracle_satisfiable.
+Print Assumptions nested_blocks_independent_refuted_for_stem_names.
